@@ -293,9 +293,16 @@ pub fn judge_c04(o: &Outcome) -> Option<(String, String)> {
   if matches!(w.ending, Ending::StackExhausted) || matches!(t.ending, Ending::StackExhausted) {
     return None;
   }
-  // an engine fault / invalid output on one side is C03's subject; C04 compares behaviours
-  if matches!(w.ending, Ending::Fault { .. }) || matches!(&t.ending, Ending::Fault { kind, .. } if kind == "SyntaxError") {
+  // an engine fault / invalid output is C03's subject when both sides have one; when only one
+  // back end goes wrong the two back ends also disagree
+  let w_fault = matches!(w.ending, Ending::Fault { .. });
+  let t_fault = matches!(t.ending, Ending::Fault { .. });
+  if w_fault && t_fault {
     return None;
+  }
+  if w_fault != t_fault {
+    let (which, e) = if w_fault { ("wasm", &w.ending) } else { ("typescript", &t.ending) };
+    return Some((format!("ts-vs-wasm:only-{which}-faults:{}", ending_class(e)), describe_diff("the emitted wasm", w, "the emitted TypeScript", t)));
   }
   if same(w, t) {
     return None;
